@@ -89,7 +89,7 @@ register("WATCH_LOOP_SHAPE", "src/sync/watch.rs",
          r"Err\(RecvTimeoutError::Timeout\) => \{\s*(?://[^\n]*\s*)*if !pending_changes\.is_empty\(\) && last_sync\.elapsed\(\) >= self\.debounce \{[\s\S]*?"
          r"match self\.engine\.sync\(&self\.source, &self\.destination\)\.await \{\s*Ok\(_\) => \{(?:(?!rx\.|pending_changes)[\s\S])*?\}\s*Err\(e\) => \{(?:(?!rx\.|pending_changes)[\s\S])*?\}\s*\}\s*"
          r"pending_changes\.clear\(\);\s*last_sync = Instant::now\(\);\s*\}\s*\}()", 1, "Z", ["C20"])
-register("WATCH_EVENT_KINDS", "src/sync/watch.rs", r"EventKind::Create\(_\) \| EventKind::Modify\(_\) \| EventKind::Remove\(_\) => true,\s*(?://[^\n]*\s*)*_ => false,()", 1, "Z", ["C20"])
+register("WATCH_EVENT_KINDS", "src/sync/watch.rs", r"match event\.kind \{\s*(?://[^\n]*\s*)*EventKind::Create\(_\) \| EventKind::Modify\(_\) \| EventKind::Remove\(_\) => true,\s*(?://[^\n]*\s*)*_ => false,\s*\}()", 1, "Z", ["C20"])
 
 
 def generate():
